@@ -18,7 +18,32 @@ META.update(
     trusted=["T-pickle"])
 
 
+# the protocol hooks T-pickle speaks about, per class, as the lemma assumes them
+PICKLE_HOOKS = ("__reduce__", "__reduce_ex__", "__getstate__", "__setstate__", "__getnewargs__", "__getnewargs_ex__", "__copy__",
+                "__deepcopy__", "extend", "__iadd__", "__new__")
+EXPECTED_HOOKS = {("las_items", "HeaderItem"): {"__reduce__"}, ("las_items", "CurveItem"): set(), ("las_items", "SectionItems"): set(),
+                  ("las", "LASFile"): set()}
+
+
+def tpickle_side_conditions(E):
+    """T-pickle is stated for classes that define exactly these protocol hooks: re-checked on the source on every run.  A class that
+    gains (or loses) one is outside the lemma: the property is then decided by the bounded run alone and nothing is reported as proved."""
+    import ast
+    from pyvc.state import OutOfSubset
+    for (m, cls), want in EXPECTED_HOOKS.items():
+        node = [n for n in E.tree[m].body if isinstance(n, ast.ClassDef) and n.name == cls]
+        if not node:
+            raise OutOfSubset("T-pickle side condition: class %s.%s not found" % (m, cls))
+        have = {b.name for b in node[0].body if isinstance(b, ast.FunctionDef) and b.name in PICKLE_HOOKS}
+        cls_attrs = {t.id for b in node[0].body if isinstance(b, ast.Assign) for t in b.targets if isinstance(t, ast.Name)}
+        if have != want:
+            raise OutOfSubset("T-pickle side condition: %s.%s defines the protocol hooks %s, the lemma assumes %s" % (m, cls, sorted(have), sorted(want)))
+        if cls == "SectionItems" and "mnemonic_transforms" in cls_attrs:
+            raise OutOfSubset("T-pickle side condition: SectionItems.mnemonic_transforms has a class-level default (state may be read before it is restored)")
+
+
 def lemmas(E, REG):
+    tpickle_side_conditions(E)
     st, c = L.ctx_for(E, {"self": S.HI})
     s = c.a["self"].t
     # the reduce value, as the contract describes it
